@@ -62,6 +62,31 @@ CHECKS = {
              "as two known findings; any further writer or mode change is a new violation. The compiled ScriptList is not evaluated.",
         design_ref="DESIGN.md §5 C20", note=STATIC_NOTE,
         technique="static analysis: per-writer reachability over the call graph + sibling agreement on emitted statement kinds"),
+    "C18": dict(
+        text="Static: argument-role agreement of GlyphClassDefStatement / CursivePosStatement with the fontTools signatures (parsed from "
+             "site-packages on every run) and of OpenTypeCategories.load with its tuple fields; user-GDEF suppression is exhaustive over "
+             "every LigatureCaret*Statement class feaLib defines (guard formula entailment); carets sorted then otRound'ed, x for caret_, "
+             "y for vcaret_; RightToLeft flag control-dependence with the .LTR/.RTL override ordered before it; LTR/RTL split by the LTR "
+             "glyph set; cursive coordinates rounded. The compiled GDEF/GPOS values are not read back.",
+        design_ref="DESIGN.md §5 C18", note=STATIC_NOTE,
+        technique="static analysis: signature/role agreement with third-party sources, control-dependence facts, exhaustiveness over parsed class list"),
+    "C01": dict(
+        text="Static plumbing clauses of the CFF path: every CFF pre-processor (static and interpolatable, resolved through the compilers' "
+             "preProcessorClass fields) adds an unconditional DecomposeComponents filter on every path; flipped components are reversed "
+             "(default, forwarding to the pen whose signature is parsed from fontTools, no call site switches it off); advance widths / "
+             "heights / charstring widths flow through otRound on every reaching definition; roundTolerance reaches the pen; builtin "
+             "round/int/floor/ceil only at 11 reviewed sites; negative advances raise before being stored; each glyph is drawn exactly once "
+             "and directly into its T2CharStringPen. Equality of drawn coordinates with the source is not decided.",
+        design_ref="DESIGN.md §5 C01", note=STATIC_NOTE,
+        technique="static analysis: value-flow (reaching definitions) sanitiser rule for otRound, CFG dominance/path rules, reviewed coercion whitelist"),
+    "C02": dict(
+        text="Static plumbing clauses of the TrueType path: the filter-pipeline decision table is checked for both sibling pre-processors by "
+             "propositional evaluation of the guards over all option assignments (filter applied iff the options say so); option->keyword "
+             "bindings; the absolute-error formula (structure, per-master UPM); cubic-in-glyf0 guard; glyphDataFormat tied to allQuadratic; "
+             "cycle rejection reachable from maxp/glyf and not swallowed by any handler; depth-ordered glyf assembly; otRound/noRound "
+             "selection; option plumbing by name. The cu2qu error bound and point equality are not decided.",
+        design_ref="DESIGN.md §5 C02", note=STATIC_NOTE,
+        technique="static analysis: exhaustive guard evaluation (decision table), sibling agreement, formula-shape matching after local inlining, call-graph handler audit"),
 }
 
 _TODO = "check not built yet in this session (static rules designed in DESIGN.md §5; will be claimed when the rule set is armed)"
